@@ -207,7 +207,7 @@ def index_grammar(ctx, n):
         if len(set(zip(names, spins))) != len(names) and rng.random() < 0.5:
             pass            # repeated indices are fine for the grammar
         idx = get_symbols(names, "".join(spins)) if all(spins) else [get_symbols([nm], sp or None)[0] for nm, sp in zip(names, spins)]
-        printed = "".join(i._latex(None) for i in idx)
+        printed = "".join(sympy.latex(i) for i in idx)
         wire = [[nm, SP[sp]] for nm, sp in zip(names, spins)]
         ans = drv.ask({"op": "idxprint", "l": wire})
         ctx.count("index_strings_printed")
